@@ -412,6 +412,7 @@ def C04():
                          functions=["constructor + Message::write"], timeout=1500, mem_gb=12))
     jobs.append(MirJob("c04_mir_ntlm_authenticate_layout", "NTLM AUTHENTICATE token: every (Len, MaxLen, BufferOffset) addresses its field for all field lengths < 65536 and all flags; Version field consistent with the offset base (shared with C15)", mirjobs.authenticate_layout))
     jobs.append(MirJob("c04_mir_info_packet_counts", "Client Info: cbDomain/cbUserName/cbPassword equal the byte size of the UTF-16 buffers actually sent minus the 2-byte terminator, for every string (SMT on the lengths)", mirjobs.info_packet_counts))
+    jobs.append(MirJob("c04_mir_extended_info_counts", "Extended Client Info (sent to RDP 5+ servers): field order; cbClientAddress / cbClientDir equal the byte size (terminator included) of the buffers sent after them; the size the count announces to the record container is the count itself for every value (SMT); clientTimeZone is 172 bytes", mirjobs.extended_info_counts))
     jobs.append(MirJob("c04_mir_core_data_name", "gcc::client_core_data: the clientName computation has no reachable panicking slice/index/unwrap and no failing arithmetic for any name (length symbolic)",
                        mirjobs.multi(mirjobs.panic_sites([(r"^client_core_data$", [(r"Option::<ClientData>::unwrap_or$", 1, "default parameters")])], {r"^client_core_data$": mirjobs.CORE_DATA_NATIVE}),
                                      mirjobs.fn_asserts(r"^client_core_data$", "client name length", loop_bound=0), mirjobs.core_data_units)))
@@ -524,13 +525,15 @@ def C18():
                          functions=["core::per::*" if "_per_" in h else "model::data::* (Message impls)"], timeout=900, mem_gb=8))
     jobs.append(MirJob("c18_mir_component_options", "Component::read/write/length: every Size and SkipField option a field announces is recorded unconditionally; a sized field is read as lookup -> allocate exactly -> read_exact -> parse from a cursor; skipped names are neither read, written nor counted (structure of the generic record container, which CBMC cannot execute with dependent fields)",
                        mirjobs.component_options))
+    jobs.append(MirJob("c18_mir_version_table", "gcc::Version::from over every u32 (SMT): each wire value of the enum decodes to the variant that is written as that value, and no other value decodes to such a variant",
+                       mirjobs.version_table))
     return Prop("C18", [("core/per.rs", "per.rs"), ("model/data.rs", "data.rs")], jobs, lowerings=["L2"],
                 assumptions=[S1, S6, DEV, "L2 light error payloads"], stubs=[S1],
                 text="Bounded model checking of the real Message impls and PER primitives as encode/decode pairs over their full value domains: bytes written == length(), decode(encode(v)) == v, exact consumption, for every combinator at depth 1 and every PER primitive.",
                 note="Shapes with a Size dependency between fields, containers nested in containers, the yasna-based ASN.1 wrappers and full GCC responses are NOT covered (CBMC does not terminate on them, DESIGN §2). Depth 1 only; byte blocks <= 4 bytes.",
                 technique="Kani/CBMC bounded model checking (SAT) of encode/decode round trips with symbolic field values",
                 design_ref="DESIGN.md §4 C18",
-                outside=["records with size-dependent or skippable fields (Component::read/write with MessageOption::Size/SkipField: CBMC does not finish)", "nested containers", "BER/DER (yasna) structures", "GCC conference blocks", "Version::from table (known finding D14 is checked by c18_mir_version_table)"])
+                outside=["records with size-dependent or skippable fields (Component::read/write with MessageOption::Size/SkipField: CBMC does not finish)", "nested containers", "BER/DER (yasna) structures", "GCC conference blocks", "full GCC responses (Version::from itself is decided by c18_mir_version_table; its known finding D14 is listed in known_findings.json)"])
 
 
 PROPS = {"C01": C01, "C02": C02, "C03": C03, "C04": C04, "C05": C05, "C06": C06, "C07": C07, "C08": C08, "C09": C09, "C10": C10, "C11": C11, "C12": C12, "C13": C13, "C14": C14, "C15": C15, "C16": C16, "C17": C17, "C18": C18, "C19": C19}
